@@ -52,13 +52,21 @@ def Inv (w : World) (s : St) : Prop := Good w s ∧ PendingOK w s
     for a reference whose own target differs from the visitor's (#29) -/
 def Quiet (s : St) : Prop := s.foreign = false ∧ s.tclash = false
 
-/-- a step never clears the event flags and, in runs that end with both flags clear, preserves the invariant -/
+/-- a step never clears the event flags and, in runs that end with both flags clear, preserves the invariant —
+    whether it returns nil or an error (the state an error leaves behind is what a later load starts from) -/
 def Pres (w : World) (f : St → Res) : Prop :=
-  ∀ s s', f s = .ok s' → Quiet s' → Quiet s ∧ (Inv w s → Inv w s')
+  ∀ s s', (f s).st? = some s' → Quiet s' → Quiet s ∧ (Inv w s → Inv w s')
+
+theorem key_inj (k k' : Kind) (t t' : Nat) (h : key k t = key k' t') : k = k' ∧ t = t' := by
+  unfold key at h
+  cases k <;> cases k' <;> simp only [Kind.idx] at h
+  all_goals first
+    | exact ⟨rfl, by omega⟩
+    | (exfalso; omega)
 
 theorem pres_foldRes (w : World) (f : Nat → St → Res) (hf : ∀ k, Pres w (f k)) :
     ∀ ks, Pres w (foldRes f ks)
-  | [] => by intro s s' h hfl; simp [foldRes] at h; subst h; exact ⟨hfl, id⟩
+  | [] => by intro s s' h hfl; simp [foldRes, Res.st?] at h; subst h; exact ⟨hfl, id⟩
   | k :: ks => by
     intro s s' h hfl
     simp only [foldRes] at h
@@ -66,10 +74,12 @@ theorem pres_foldRes (w : World) (f : Nat → St → Res) (hf : ∀ k, Pres w (f
     | ok s1 =>
       simp only [hk] at h
       obtain ⟨h1, h2⟩ := pres_foldRes w f hf ks s1 s' h hfl
-      obtain ⟨h3, h4⟩ := hf k s s1 hk h1
+      obtain ⟨h3, h4⟩ := hf k s s1 (by simp [hk, Res.st?]) h1
       exact ⟨h3, fun hi => h2 (h4 hi)⟩
-    | err _ => simp [hk] at h
-    | outOfFuel => simp [hk] at h
+    | err e s1 =>
+      simp only [hk, Res.st?, Option.some.injEq] at h; subst h
+      exact hf k s s1 (by simp [hk, Res.st?]) hfl
+    | outOfFuel => simp [hk, Res.st?] at h
 
 /-- the step that runs the backtrack callbacks: a callback that fires while `tclash` stays clear belongs to a
     reference whose own one-step target is the visitor's -/
@@ -77,7 +87,7 @@ theorem unvisit_inv (w : World) (t : Text) (n : Node) (tg : Option (Loc × Obj))
     (hi : Inv w s) (htg : tg = w.target n.home t n.kind)
     (hv : ∀ v', v = some v' → ∃ cx' tgt tn f, w.target n.home t n.kind = some (cx', tgt) ∧ w.node tgt = some tn ∧
             tn.kind = n.kind ∧ designates w f tgt = some v')
-    (h : unvisit w n.kind t tg v s = .ok s') (hq : s'.tclash = false) : Inv w s' := by
+    (h : unvisit w (key n.kind t) t tg v s = .ok s') (hq : s'.tclash = false) : Inv w s' := by
   obtain ⟨hg, hp⟩ := hi
   unfold unvisit at h
   cases v with
@@ -94,32 +104,32 @@ theorem unvisit_inv (w : World) (t : Text) (n : Node) (tg : Option (Loc × Obj))
     refine ⟨?_, ?_⟩
     · intro a b hab
       simp only [List.mem_append, List.mem_map, List.mem_filter] at hab
-      rcases hab with hab | ⟨p, ⟨⟨hpm, hpt⟩, hfit⟩, hpe⟩
+      rcases hab with hab | ⟨p, ⟨hpm, hpt⟩, hpe⟩
       · exact hg a b hab
       · obtain ⟨pt, pm⟩ := p
         simp only [Prod.mk.injEq] at hpe; obtain ⟨rfl, rfl⟩ := hpe
-        have hpt' : pt = t := by simpa using hpt
-        subst hpt'
-        obtain ⟨nm, hnm, hrm⟩ := hp _ _ hpm
-        have hkm : nm.kind = n.kind := by
-          simpa [kindOf, hnm] using hfit
+        have hpt' : pt = key n.kind t := by simpa using hpt
+        obtain ⟨nm, tm, hnm, hrm, hkey⟩ := hp _ _ hpm
+        obtain ⟨hkm, htm'⟩ := key_inj _ _ _ _ (hkey.symm.trans hpt')
+        subst htm'
         -- the callback of `pm` fired and `tclash` stayed clear
-        have hsame : homeTarget w pt pm = tg := by
+        have hsame : homeTarget w tm pm = tg := by
           have hall := hq.2
           rw [List.any_eq_false] at hall
-          have := hall (pt, pm) (by simp only [List.mem_filter]; exact ⟨⟨hpm, by simp⟩, hfit⟩)
+          have := hall (pt, pm) (by simp only [List.mem_filter]; exact ⟨hpm, by simpa using hpt'⟩)
           simpa using this
-        have htm : w.target nm.home pt nm.kind = some (cx', tgt) := by
-          have : homeTarget w pt pm = w.target nm.home pt nm.kind := by simp [homeTarget, hnm]
+        have htm : w.target nm.home tm nm.kind = some (cx', tgt) := by
+          have : homeTarget w tm pm = w.target nm.home tm nm.kind := by simp [homeTarget, hnm]
           rw [← this, hsame, htg]; exact ht
         have hk' : tn.kind = nm.kind := by rw [hk, hkm]
+        have hne : nm.empty = false ∨ True := Or.inr trivial
         exact ⟨f + 1, by simp [designates, hnm, hrm, htm, htn, hk', hd]⟩
     · intro t' m hm
       simp only [List.mem_filter] at hm
       exact hp t' m hm.1
 
-theorem unvisit_quiet (w : World) (k : Kind) (t : Text) (tg : Option (Loc × Obj)) (v : Option Obj) (s s' : St)
-    (h : unvisit w k t tg v s = .ok s') (hq : Quiet s') : Quiet s := by
+theorem unvisit_quiet (w : World) (kt : Nat) (t : Text) (tg : Option (Loc × Obj)) (v : Option Obj) (s s' : St)
+    (h : unvisit w kt t tg v s = .ok s') (hq : Quiet s') : Quiet s := by
   unfold unvisit at h
   cases v with
   | none => simp only [Res.ok.injEq] at h; subst h; exact hq
@@ -128,6 +138,25 @@ theorem unvisit_quiet (w : World) (k : Kind) (t : Text) (tg : Option (Loc × Obj
     obtain ⟨h1, h2⟩ := hq
     simp only [Bool.or_eq_false_iff] at h2
     exact ⟨h1, h2.1⟩
+
+theorem unvisit_isOk (w : World) (kt : Nat) (t : Text) (tg : Option (Loc × Obj)) (v : Option Obj) (s : St) :
+    ∃ s', unvisit w kt t tg v s = .ok s' := by
+  unfold unvisit; cases v <;> exact ⟨_, rfl⟩
+
+/-- whatever the walk of the children returned, the deferred `unvisitRef` ran on the state it left -/
+theorem unvisitThen_st (w : World) (kt : Nat) (t : Text) (tg : Option (Loc × Obj)) (v : Obj) (r : Res) (s' : St)
+    (h : (unvisitThen w kt t tg v r).st? = some s') :
+    ∃ s2, r.st? = some s2 ∧ unvisit w kt t tg (some v) { s2 with walking := s2.walking.tail } = .ok s' := by
+  cases r with
+  | ok s2 =>
+    obtain ⟨s3, h3⟩ := unvisit_isOk w kt t tg (some v) { s2 with walking := s2.walking.tail }
+    simp only [unvisitThen, h3, Res.st?, Option.some.injEq] at h; subst h
+    exact ⟨s2, rfl, h3⟩
+  | err e s2 =>
+    obtain ⟨s3, h3⟩ := unvisit_isOk w kt t tg (some v) { s2 with walking := s2.walking.tail }
+    simp only [unvisitThen, h3, Res.st?, Option.some.injEq] at h; subst h
+    exact ⟨s2, rfl, h3⟩
+  | outOfFuel => simp [unvisitThen, Res.st?] at h
 
 /-- a copy (of a reference) designates what its original designates -/
 theorem designates_copy (w : World) (hC : CopyOK w) (c r : Obj) (n : Node) (hn : w.node c = some n)
@@ -144,13 +173,13 @@ theorem designates_copy (w : World) (hC : CopyOK w) (c r : Obj) (n : Node) (hn :
     exact h
 
 theorem valueOf_designates (w : World) (hC : CopyOK w) (tgt : Obj) (tn : Node) (s : St) (v : Obj)
-    (htn : w.node tgt = some tn) (hg : Good w s) (h : valueOf w tgt s = some v) :
+    (htn : w.node tgt = some tn) (hte : tn.empty = false) (hg : Good w s) (h : valueOf w tgt s = some v) :
     ∃ f, designates w f tgt = some v := by
   unfold valueOf at h
   cases hrt : tn.ref with
   | none =>
     simp [htn, hrt] at h; subst h
-    exact ⟨1, by simp [designates, htn, hrt]⟩
+    exact ⟨1, by simp [designates, htn, hrt, hte]⟩
   | some t' =>
     simp only [htn, Option.bind_some, hrt] at h
     unfold getC at h
@@ -172,18 +201,24 @@ theorem pres_loadDoc (w : World) (rs : Loc → Nat → St → Res) (hrs : ∀ l 
   intro s s' h hfl
   unfold loadDoc at h
   cases d with
-  | none => simp at h; subst h; exact ⟨hfl, id⟩
+  | none => simp [Res.st?] at h; subst h; exact ⟨hfl, id⟩
   | some l =>
     simp only at h
     split at h
-    · simp at h; subst h; exact ⟨hfl, id⟩
-    · obtain ⟨h1, h2⟩ := pres_foldRes w (rs l) (hrs l) (w.roots l) _ s' h hfl
+    · simp only [Res.st?, Option.some.injEq] at h; subst h
+      exact ⟨hfl, fun hi => ⟨by simpa [Good] using hi.1, by simpa [PendingOK] using hi.2⟩⟩
+    · have h' : (foldRes (rs l) (w.roots l) { s with docs := s.docs ++ [l] }).st? = some s' := by
+        cases hf : foldRes (rs l) (w.roots l) { s with docs := s.docs ++ [l] } with
+        | ok _ => simpa [hf, wrapErr] using h
+        | err _ _ => simpa [hf, wrapErr, Res.st?] using h
+        | outOfFuel => simp [hf, wrapErr, Res.st?] at h
+      obtain ⟨h1, h2⟩ := pres_foldRes w (rs l) (hrs l) (w.roots l) _ s' h' hfl
       exact ⟨h1, fun hi => h2 ⟨by simpa [Good] using hi.1, by simpa [PendingOK] using hi.2⟩⟩
 
 theorem finish_inv (w : World) (rs : Nat → St → Res) (hrs : ∀ k, Pres w (rs k))
-    (t : Text) (tg : Option (Loc × Obj)) (o : Obj) (n : Node) (rw : Bool) (v : Option Obj) (s s' : St)
+    (t : Text) (tg : Option (Loc × Obj)) (o : Obj) (n : Node) (v : Option Obj) (s s' : St)
     (hn : w.node o = some n) (hr : n.ref = some t)
-    (h : finish w rs n.kind t tg o rw v s = .ok s') (hfl : Quiet s') :
+    (h : (finish w rs (key n.kind t) t tg o v s).st? = some s') (hfl : Quiet s') :
     Quiet s ∧ (Inv w s → tg = w.target n.home t n.kind →
       (∀ v', v = some v' → ∃ cx' tgt tn f, w.target n.home t n.kind = some (cx', tgt) ∧ w.node tgt = some tn ∧
             tn.kind = n.kind ∧ designates w f tgt = some v') → Inv w s') := by
@@ -191,64 +226,91 @@ theorem finish_inv (w : World) (rs : Nat → St → Res) (hrs : ∀ k, Pres w (r
   cases v with
   | none =>
     simp only at h
-    refine ⟨unvisit_quiet w _ _ _ _ _ _ h hfl, fun hi htg _ => ?_⟩
-    exact unvisit_inv w t n tg none s s' hi htg (by intro v' hv'; cases hv') h hfl.2
+    obtain ⟨s3, h3⟩ := unvisit_isOk w (key n.kind t) t tg none s
+    simp only [h3, Res.st?, Option.some.injEq] at h; subst h
+    refine ⟨unvisit_quiet w _ _ _ _ _ _ h3 hfl, fun hi htg _ => ?_⟩
+    exact unvisit_inv w t n tg none s s3 hi htg (by intro v' hv'; cases hv') h3 hfl.2
   | some v' =>
     simp only at h
-    cases hf : foldRes rs (if rw = true then ((w.node v').map (·.kids)).getD [] else [])
-        { s with value := s.value ++ [(o, v')] } with
-    | err _ => simp [hf] at h
-    | outOfFuel => simp [hf] at h
-    | ok s2 =>
-      simp only [hf] at h
-      have hfl2 : Quiet s2 := unvisit_quiet w _ _ _ _ _ _ h hfl
-      obtain ⟨h1, h2⟩ := pres_foldRes w rs hrs _ _ s2 hf hfl2
-      refine ⟨h1, fun hi htg hv => ?_⟩
-      obtain ⟨cx', tgt, tn, f, ht, htn, hk, hd⟩ := hv v' rfl
-      have hi1 : Inv w { s with value := s.value ++ [(o, v')] } := by
-        refine ⟨?_, by simpa [PendingOK] using hi.2⟩
-        intro a b hab
-        simp only [List.mem_append, List.mem_singleton, Prod.mk.injEq] at hab
-        rcases hab with hab | ⟨rfl, rfl⟩
-        · exact hi.1 a b hab
-        · exact ⟨f + 1, by simp [designates, hn, hr, ht, htn, hk, hd]⟩
-      exact unvisit_inv w t n tg (some v') s2 s' (h2 hi1) htg
-        (by intro v'' hv''; cases hv''; exact ⟨cx', tgt, tn, f, ht, htn, hk, hd⟩) h hfl.2
-
-theorem markDone_ok (o : Obj) (r : Res) (s' : St) (h : markDone o r = .ok s') :
-    ∃ s4, r = .ok s4 ∧ s' = { s4 with done := s4.done ++ [o] } := by
-  cases r with
-  | ok s4 => simp only [markDone, Res.ok.injEq] at h; exact ⟨s4, rfl, h.symm⟩
-  | err _ => simp [markDone] at h
-  | outOfFuel => simp [markDone] at h
+    obtain ⟨s2, hf, hu⟩ := unvisitThen_st w _ _ _ _ _ _ h
+    have hfl2 : Quiet s2 := (unvisit_quiet w _ _ _ _ _ _ hu hfl : Quiet { s2 with walking := s2.walking.tail })
+    obtain ⟨h1, h2⟩ := hrs v' _ s2 hf hfl2
+    refine ⟨h1, fun hi htg hv => ?_⟩
+    obtain ⟨cx', tgt, tn, f, ht, htn, hk, hd⟩ := hv v' rfl
+    have hi1 : Inv w { s with value := s.value ++ [(o, v')], walking := v' :: s.walking } := by
+      refine ⟨?_, by simpa [PendingOK] using hi.2⟩
+      intro a b hab
+      simp only [List.mem_append, List.mem_singleton, Prod.mk.injEq] at hab
+      rcases hab with hab | ⟨rfl, rfl⟩
+      · exact hi.1 a b hab
+      · exact ⟨f + 1, by simp [designates, hn, hr, ht, htn, hk, hd]⟩
+    have hi2 : Inv w { s2 with walking := s2.walking.tail } := by
+      have := h2 hi1
+      exact ⟨by simpa [Good] using this.1, by simpa [PendingOK] using this.2⟩
+    exact unvisit_inv w t n tg (some v') _ s' hi2 htg
+      (by intro v'' hv''; cases hv''; exact ⟨cx', tgt, tn, f, ht, htn, hk, hd⟩) hu hfl.2
 
 theorem inv_done (w : World) (s : St) (d : List Obj) (h : Inv w s) : Inv w { s with done := d } :=
   ⟨by simpa [Good] using h.1, by simpa [PendingOK] using h.2⟩
 
+/-- `markDone` changes nothing but the instrumentation -/
+theorem markDone_st (o : Obj) (r : Res) (s' : St) (h : (markDone o r).st? = some s') :
+    ∃ s4, r.st? = some s4 ∧ (s' = s4 ∨ s' = { s4 with done := s4.done ++ [o] }) := by
+  cases r with
+  | ok s4 => simp only [markDone, Res.st?, Option.some.injEq] at h; exact ⟨s4, rfl, Or.inr h.symm⟩
+  | err e s4 => simp only [markDone, Res.st?, Option.some.injEq] at h; exact ⟨s4, rfl, Or.inl h.symm⟩
+  | outOfFuel => simp [markDone, Res.st?] at h
+
 theorem pres_markDone (w : World) (o : Obj) (f : St → Res) (hf : Pres w f) : Pres w (fun s => markDone o (f s)) := by
   intro s s' h hfl
-  cases hr : f s with
-  | ok s1 =>
-    simp only [hr, markDone, Res.ok.injEq] at h; subst h
-    obtain ⟨a, b⟩ := hf s s1 hr hfl
-    exact ⟨a, fun hi => by
-      have := b hi
-      exact ⟨by simpa [Good] using this.1, by simpa [PendingOK] using this.2⟩⟩
-  | err _ => simp [hr, markDone] at h
-  | outOfFuel => simp [hr, markDone] at h
+  obtain ⟨s4, h4, hs'⟩ := markDone_st o (f s) s' h
+  rcases hs' with rfl | rfl
+  · exact hf s _ h4 hfl
+  · obtain ⟨a, b⟩ := hf s s4 h4 hfl
+    exact ⟨a, fun hi => inv_done w _ _ (b hi)⟩
+
+/-- the three ways through the optional recursive call -/
+theorem preResolve_st (pre swallows : Bool) (k : Kind) (o : Obj) (r : Unit → Res) (s2 : St) (cont : St → Res) (s' : St)
+    (h : (preResolve pre swallows k o r s2 cont).st? = some s') :
+    (pre = false ∧ (cont s2).st? = some s') ∨
+    (pre = true ∧ ∃ s3, r () = .ok s3 ∧ (cont s3).st? = some s') ∨
+    (pre = true ∧ ∃ e s3, r () = .err e s3 ∧
+      (s' = s3 ∨ s' = { s3 with nswallow := s3.nswallow + 1, done := s3.done ++ [o] })) := by
+  unfold preResolve at h
+  cases pre with
+  | false => exact Or.inl ⟨rfl, by simpa using h⟩
+  | true =>
+    simp only [if_true] at h
+    cases hr : r () with
+    | ok s3 => simp only [hr] at h; exact Or.inr (Or.inl ⟨rfl, s3, rfl, h⟩)
+    | outOfFuel => simp [hr, Res.st?] at h
+    | err e s3 =>
+      refine Or.inr (Or.inr ⟨rfl, e, s3, rfl, ?_⟩)
+      cases e with
+      | none => simp only [hr, Res.st?, Option.some.injEq] at h; exact Or.inl h.symm
+      | some k' =>
+        simp only [hr] at h
+        split at h
+        · simp only [markDone, Res.st?, Option.some.injEq] at h; exact Or.inr h.symm
+        · simp only [Res.st?, Option.some.injEq] at h; exact Or.inl h.symm
 
 /-- Invariant preservation of the whole resolution, by induction on fuel. -/
 theorem resolve_pres (w : World) (hC : CopyOK w) : ∀ fuel cx o, Pres w (resolve w fuel cx o) := by
   intro fuel
   induction fuel with
-  | zero => intro cx o s s' h; simp [resolve] at h
+  | zero => intro cx o s s' h; simp [resolve, Res.st?] at h
   | succ fuel ih =>
     intro cx o s s' h hfl
     simp only [resolve] at h
     cases hn : w.node o with
-    | none => simp [hn] at h
+    | none => simp only [hn, Res.st?, Option.some.injEq] at h; subst h; exact ⟨hfl, id⟩
     | some n =>
       simp only [hn] at h
+      by_cases hemp : n.empty = true
+      · rw [if_pos hemp] at h
+        simp only [Res.st?, Option.some.injEq] at h; subst h; exact ⟨hfl, id⟩
+      rw [if_neg hemp] at h
+      have hne : n.empty = false := by simpa using hemp
       cases hr : n.ref with
       | none =>
         simp only [hr] at h
@@ -257,63 +319,103 @@ theorem resolve_pres (w : World) (hC : CopyOK w) : ∀ fuel cx o, Pres w (resolv
         simp only [hr] at h
         by_cases h1 : (getC w s o).isSome = true
         · rw [if_pos h1] at h
-          exact pres_markDone w o (fun s => .ok s) (fun s s' h hf => by cases h; exact ⟨hf, id⟩) s s' h hfl
+          exact pres_markDone w o (fun s => .ok s) (fun s s' h hf => by
+            simp only [Res.st?, Option.some.injEq] at h; subst h; exact ⟨hf, id⟩) s s' h hfl
         · rw [if_neg h1] at h
-          by_cases h2 : s.inprog.contains t = true
+          by_cases h2 : s.inprog.contains (key n.kind t) = true
           · rw [if_pos h2] at h
-            refine pres_markDone w o (fun s => .ok { s with pending := s.pending ++ [(t, o)], nback := s.nback + 1 }) ?_ s s' h hfl
+            refine pres_markDone w o (fun s => .ok { s with pending := s.pending ++ [(key n.kind t, o)], nback := s.nback + 1 }) ?_ s s' h hfl
             intro s s' h hfl
-            simp only [Res.ok.injEq] at h; subst h
+            simp only [Res.st?, Option.some.injEq] at h; subst h
             refine ⟨hfl, fun hi => ⟨hi.1, ?_⟩⟩
             intro t' m hm
             simp only [List.mem_append, List.mem_singleton, Prod.mk.injEq] at hm
             rcases hm with hm | ⟨rfl, rfl⟩
             · exact hi.2 t' m hm
-            · exact ⟨n, hn, hr⟩
+            · exact ⟨n, t, hn, hr, rfl⟩
           · rw [if_neg h2] at h
-            cases hr1 : loadDoc w (fun l k s => resolve w fuel l k s) (w.docOf cx t)
-                { s with inprog := s.inprog ++ [t], foreign := s.foreign || (cx != n.home) } with
-            | err _ => simp [hr1] at h
-            | outOfFuel => simp [hr1] at h
-            | ok s2 =>
-              simp only [hr1] at h
-              have hL := pres_loadDoc w (fun l k s => resolve w fuel l k s) (fun l k => ih l k) (w.docOf cx t) _ s2 hr1
-              have key : Quiet s2 ∧ (cx = n.home → Inv w s2 → Inv w s') := by
-                by_cases hE : w.emptyTarget cx t n.kind = true
-                · rw [if_pos hE] at h
-                  simp only [markDone, Res.ok.injEq] at h; subst h
-                  exact ⟨hfl, fun _ hi => ⟨by simpa [Good] using hi.1, by simpa [PendingOK] using hi.2⟩⟩
-                rw [if_neg hE] at h
-                cases ht : w.target cx t n.kind with
-                | none => simp only [ht] at h; cases h
-                | some p =>
-                  obtain ⟨cx', tgt⟩ := p
-                  simp only [ht] at h
-                  cases htn : w.node tgt with
-                  | none => simp [htn] at h
-                  | some tn =>
-                    simp only [htn] at h
-                    by_cases hk : tn.kind = n.kind
-                    · simp only [hk, ne_eq, not_true_eq_false, if_false] at h
-                      cases hres : resolve w fuel cx' tgt s2 with
-                      | err _ => simp [hres] at h
-                      | outOfFuel => simp [hres] at h
-                      | ok s3 =>
-                        simp only [hres] at h
-                        obtain ⟨s4, hfin, rfl⟩ := markDone_ok _ _ _ h
-                        have hfl4 : Quiet s4 := hfl
-                        obtain ⟨a, b⟩ := finish_inv w _ (fun k => ih _ k) t _ o n _ (valueOf w tgt s3) s3 s4 hn hr hfin hfl4
-                        obtain ⟨c, d⟩ := ih cx' tgt s2 s3 hres a
-                        refine ⟨c, fun hcx hi => inv_done w _ _ (b (d hi) (by rw [← hcx, ht]) (fun v' hv' => ?_))⟩
-                        obtain ⟨f, hf⟩ := valueOf_designates w hC tgt tn s3 v' htn (d hi).1 hv'
-                        exact ⟨cx', tgt, tn, f, hcx ▸ ht, htn, hk, hf⟩
-                    · simp [hk] at h
-              obtain ⟨k1, k2⟩ := key
-              obtain ⟨l1, l2⟩ := hL k1
+            -- everything after `visitRef`: from the state `s1`, in the home context
+            have hL := pres_loadDoc w (fun l k s => resolve w fuel l k s) (fun l k => ih l k) (w.docOf cx t)
+              { s with inprog := s.inprog ++ [key n.kind t], foreign := s.foreign || (cx != n.home) }
+            have key' : ∀ s2, (loadDoc w (fun l k s => resolve w fuel l k s) (w.docOf cx t)
+                { s with inprog := s.inprog ++ [key n.kind t], foreign := s.foreign || (cx != n.home) }).st? = some s2 →
+                Quiet s2 → (cx = n.home → Inv w s2 → Inv w s') → Quiet s ∧ (Inv w s → Inv w s') := by
+              intro s2 hl hq2 hk2
+              obtain ⟨l1, l2⟩ := hL s2 hl hq2
               have hsf : s.foreign = false ∧ cx = n.home := by
                 have := l1.1
                 simp only [Bool.or_eq_false_iff, bne_eq_false_iff_eq] at this
                 exact this
-              exact ⟨⟨hsf.1, l1.2⟩, fun hi => k2 hsf.2 (l2 ⟨by simpa [Good] using hi.1, by simpa [PendingOK] using hi.2⟩)⟩
+              exact ⟨⟨hsf.1, l1.2⟩, fun hi => hk2 hsf.2 (l2 ⟨by simpa [Good] using hi.1, by simpa [PendingOK] using hi.2⟩)⟩
+            cases hr1 : loadDoc w (fun l k s => resolve w fuel l k s) (w.docOf cx t)
+                { s with inprog := s.inprog ++ [key n.kind t], foreign := s.foreign || (cx != n.home) } with
+            | outOfFuel => simp [hr1, Res.st?] at h
+            | err e s2 =>
+              simp only [hr1, Res.st?, Option.some.injEq] at h; subst h
+              exact key' s2 (by simp [hr1, Res.st?]) hfl (fun _ hi => hi)
+            | ok s2 =>
+              simp only [hr1] at h
+              have hl : (loadDoc w (fun l k s => resolve w fuel l k s) (w.docOf cx t)
+                { s with inprog := s.inprog ++ [key n.kind t], foreign := s.foreign || (cx != n.home) }).st? = some s2 := by
+                simp [hr1, Res.st?]
+              -- the error exits that leave the state `s2`
+              have exit2 : s' = s2 → Quiet s ∧ (Inv w s → Inv w s') := by
+                intro he; subst he; exact key' _ hl hfl (fun _ hi => hi)
+              by_cases hE : w.emptyTarget cx t n.kind = true
+              · rw [if_pos hE] at h
+                simp only [markDone, Res.st?, Option.some.injEq] at h; subst h
+                exact key' s2 hl hfl (fun _ hi => ⟨by simpa [Good] using hi.1, by simpa [PendingOK] using hi.2⟩)
+              rw [if_neg hE] at h
+              cases ht : w.target cx t n.kind with
+              | none => simp only [ht, Res.st?, Option.some.injEq] at h; exact exit2 h.symm
+              | some p =>
+                obtain ⟨cx', tgt⟩ := p
+                simp only [ht] at h
+                cases htn : w.node tgt with
+                | none => simp only [htn, Res.st?, Option.some.injEq] at h; exact exit2 h.symm
+                | some tn =>
+                  simp only [htn] at h
+                  by_cases hk : tn.kind = n.kind
+                  · simp only [hk, ne_eq, not_true_eq_false, if_false] at h
+                    by_cases hte' : tn.empty = true
+                    · rw [if_pos hte'] at h
+                      simp only [Res.st?, Option.some.injEq] at h; exact exit2 h.symm
+                    rw [if_neg hte'] at h
+                    have hte : tn.empty = false := by simpa using hte'
+                    -- the continuation after the (optional) recursive call, from a state s3 reached from s2
+                    have cont : ∀ s3, (Inv w s2 → Inv w s3) → (Quiet s3 → Quiet s2) →
+                        (markDone o (finish w (fun k s => resolve w fuel
+                            (if (w.fragment cx t n.kind && !decide (n.kind = Kind.pathItem)) = true then cx else cx') k s)
+                          (key n.kind t) t (some (cx', tgt)) o (valueOf w tgt s3) s3)).st? = some s' →
+                        Quiet s ∧ (Inv w s → Inv w s') := by
+                      intro s3 h23 hq32 hfin
+                      obtain ⟨s4, hfin4, hs'⟩ := markDone_st _ _ _ hfin
+                      have hq4 : Quiet s4 := by rcases hs' with rfl | rfl <;> exact hfl
+                      obtain ⟨a, b⟩ := finish_inv w _ (fun k => ih _ k) t _ o n (valueOf w tgt s3) s3 s4 hn hr hfin4 hq4
+                      refine key' s2 hl (hq32 a) (fun hcx hi => ?_)
+                      have hi4 : Inv w s4 := b (h23 hi) (by rw [← hcx, ht]) (fun v' hv' => by
+                        obtain ⟨f, hf⟩ := valueOf_designates w hC tgt tn s3 v' htn hte (h23 hi).1 hv'
+                        exact ⟨cx', tgt, tn, f, hcx ▸ ht, htn, hk, hf⟩)
+                      rcases hs' with rfl | rfl
+                      · exact hi4
+                      · exact inv_done w _ _ hi4
+                    rcases preResolve_st _ _ _ _ _ _ _ _ h with ⟨_, hc⟩ | ⟨_, s3, hres, hc⟩ | ⟨_, e, s3, hres, hs3⟩
+                    · exact cont s2 id id hc
+                    · have hI := ih cx' tgt s2 s3 (by simp [hres, Res.st?])
+                      have hq3 : Quiet s3 := by
+                        obtain ⟨s4, hfin4, hs'⟩ := markDone_st _ _ _ hc
+                        have hq4 : Quiet s4 := by rcases hs' with rfl | rfl <;> exact hfl
+                        exact (finish_inv w _ (fun k => ih _ k) t _ o n (valueOf w tgt s3) s3 s4 hn hr hfin4 hq4).1
+                      exact cont s3 (fun hi => (hI hq3).2 hi) (fun hq => (hI hq).1) hc
+                    · have hI := ih cx' tgt s2 s3 (by simp [hres, Res.st?])
+                      have hs3' : Quiet s3 ∧ (Inv w s3 → Inv w s') := by
+                        rcases hs3 with rfl | rfl
+                        · exact ⟨hfl, id⟩
+                        · exact ⟨hfl, fun hi => ⟨by simpa [Good] using hi.1, by simpa [PendingOK] using hi.2⟩⟩
+                      obtain ⟨q3, i3⟩ := hs3'
+                      obtain ⟨q2, i2⟩ := hI q3
+                      exact key' s2 hl q2 (fun _ hi => i3 (i2 hi))
+                  · simp only [ne_eq, hk, not_false_eq_true, if_true, Res.st?, Option.some.injEq] at h
+                    exact exit2 h.symm
 
 end KinModel.Loader
